@@ -292,14 +292,19 @@ def _deliver_mdns(ctx: Ctx, ev: dict) -> None:
 
             rec = zc_real.DNSAddress(r["name"], zc_real.const._TYPE_A, zc_real.const._CLASS_IN, 120, _s.inet_aton(r.get("addr", "10.0.0.5")))
         recs.append(zc_real.RecordUpdate(rec, None))
-    n = 0
-    for z in getattr(w, "zcs", []):
-        if z.listeners and not z.closed:
-            n += len(z.listeners)
-            w.schedule(ev.get("phase", "pre"), lambda z=z: z.deliver(recs))
-    w.rec("mdns_records", n_listeners=n, records=ev.get("records", []))
-    if n:
-        w.fire("mdns_record_delivered")
+    def deliver() -> None:
+        n = 0
+        for z in list(getattr(w, "zcs", [])):
+            if z.listeners and not z.closed:
+                n += len(z.listeners)
+        w.rec("mdns_records", n_listeners=n, records=ev.get("records", []))
+        if n:
+            w.fire("mdns_record_delivered")
+        for z in list(getattr(w, "zcs", [])):
+            if z.listeners and not z.closed:
+                z.deliver(recs)
+
+    w.schedule(ev.get("phase", "pre"), deliver)
 
 
 def _poke(ctx: Ctx, ev: dict) -> None:
@@ -411,6 +416,7 @@ def audit(ctx: Ctx, reason: str) -> dict:
         "zcs": zcs,
         "client_has_conn": client_conn,
         "loop_exceptions": len(loop._sim_exceptions),
+        "max_live_device_sessions": getattr(w, "max_live", 0),
     }
     w.rec("audit", **out)
     return out
@@ -1095,3 +1101,57 @@ async def _s_resolve(ctx: Ctx, a: Actor, st: dict) -> Any:
         sa = ai.sockaddr
         out.append([int(ai.family), sa.address, sa.port, getattr(sa, "flowinfo", None), getattr(sa, "scope_id", None)])
     return out
+
+
+# ----------------------------------------------------------------------------------------
+# reconnect manager (C18)
+# ----------------------------------------------------------------------------------------
+
+
+@step("rl.new")
+async def _rl_new(ctx: Ctx, a: Actor, st: dict) -> Any:
+    w = ctx.world
+    L = ctx.L
+    delays = st.get("cb_delay", {})
+
+    async def on_connect() -> None:
+        w.rec("rl_on_connect")
+        if delays.get("connect"):
+            await sim_sleep(w, delays["connect"])
+        w.rec("rl_on_connect_done")
+
+    async def on_disconnect(expected: bool) -> None:
+        w.rec("rl_on_disconnect", expected=bool(expected))
+        if delays.get("disconnect"):
+            await sim_sleep(w, delays["disconnect"])
+        w.rec("rl_on_disconnect_done")
+
+    async def on_error(err: Exception) -> None:
+        w.rec("rl_on_error", err=exc_info(err))
+        if delays.get("error"):
+            await sim_sleep(w, delays["error"])
+        w.rec("rl_on_error_done")
+
+    zc = None
+    if st.get("zeroconf") == "zeroconf":
+        zc = FakeZeroconf("app")
+    elif st.get("zeroconf") == "async":
+        zc = FakeAsyncZeroconf(zc=FakeZeroconf("app"))
+    rl = L.reconnect_logic.ReconnectLogic(client=ctx.client, on_connect=on_connect, on_disconnect=on_disconnect, zeroconf_instance=zc, name=st.get("name"), on_connect_error=on_error)
+    ctx.extra["rl"] = rl
+    return {"name": rl.name}
+
+
+@step("rl.start")
+async def _rl_start(ctx: Ctx, a: Actor, st: dict) -> Any:
+    await ctx.extra["rl"].start()
+
+
+@step("rl.stop")
+async def _rl_stop(ctx: Ctx, a: Actor, st: dict) -> Any:
+    await ctx.extra["rl"].stop()
+
+
+@step("rl.stop_callback")
+async def _rl_stop_cb(ctx: Ctx, a: Actor, st: dict) -> Any:
+    ctx.extra["rl"].stop_callback()
